@@ -7,7 +7,8 @@ See `harness/src/prop/c10.rs` for the Rust side answering the same lines from th
 `rd-hist <mode> <le|be> <section hex> <op> <op> …` — a history of reader operations.
 Reply: `ok <trace of the shared-buffer reader>` followed by ` ~slice <trace>`,
 ` ~rslice <trace>`, ` ~rshared <trace>` for the kinds (EndianSlice, RelocateReader over either
-with the identity relocation) whose trace differs from it. -/
+with the identity relocation) whose trace differs from it.
+`rd-parse …` — whole-section parses repeated under every reader kind; implementation-side oracle only. -/
 namespace Gimli.Drv.C10
 open Gimli Gimli.Drv Gimli.Rd
 
@@ -95,6 +96,7 @@ def handle (op : String) (args : List String) : Option String :=
     let rshared := traceOf (relocImpl sharedImpl Rel.id) (RCur.new c) m e ops
     let extra (name t : String) : String := if t == shared then "" else " ~" ++ name ++ " " ++ t
     pure ("ok " ++ shared ++ extra "slice" slice ++ extra "rslice" rslice ++ extra "rshared" rshared)
+  | "rd-parse", _ => some "normal"
   | "rd-utf8", [h] => do
     let bs ← parseHex h
     pure ("ok " ++ (if Utf8.valid bs then "valid" else "invalid") ++ " " ++ toHex (Utf8.lossy bs))
